@@ -24,6 +24,7 @@ import (
 	"os"
 	"runtime"
 	"strings"
+	"sync/atomic"
 	"time"
 
 	"github.com/tilinna/clock"
@@ -49,10 +50,16 @@ func mkTime(sec, nsec int64) time.Time { return time.Unix(sec-zeroToUnix, nsec).
 
 // ---------------------------------------------------------------------------------- quiescence
 
+// a goroutine is recognised by any frame of the type it serves (whatever the method or closure is called) or by
+// the constructor that created it
 const (
-	fnTicker  = "util.(*AlignedTicker).start"
-	fnFlusher = "statsd.(*MetricFlusher).Run"
+	fnTicker  = "util.(*AlignedTicker).|util.NewAlignedTicker"
+	fnFlusher = "statsd.(*MetricFlusher)."
 )
+
+// unsettled counts waits that ran into their deadline: once the goroutines cannot be recognised at all (the code
+// was restructured beyond these patterns) every case would spend its deadlines, so later waits give up quickly
+var unsettled int32
 
 // goroutineStates returns the wait states of all goroutines that have fn on their stack.
 func goroutineStates(fns ...string) map[string][]string {
@@ -80,8 +87,11 @@ func goroutineStates(fns ...string) map[string][]string {
 			state = state[:c]
 		}
 		for _, fn := range fns {
-			if strings.Contains(blk, fn+"(") {
-				out[fn] = append(out[fn], state)
+			for _, pat := range strings.Split(fn, "|") {
+				if strings.Contains(blk, pat) {
+					out[fn] = append(out[fn], state)
+					break
+				}
 			}
 		}
 	}
@@ -96,7 +106,11 @@ func waitQuiet(want map[string]int) error {
 	for fn := range want {
 		fns = append(fns, fn)
 	}
-	deadline := time.Now().Add(5 * time.Second)
+	limit := 5 * time.Second
+	if atomic.LoadInt32(&unsettled) > 20 {
+		limit = 20 * time.Millisecond
+	}
+	deadline := time.Now().Add(limit)
 	for spin := 0; ; spin++ {
 		st := goroutineStates(fns...)
 		ok := true
@@ -114,6 +128,7 @@ func waitQuiet(want map[string]int) error {
 			return nil
 		}
 		if time.Now().After(deadline) {
+			atomic.AddInt32(&unsettled, 1)
 			return fmt.Errorf("goroutines did not settle: %v (want %v)", st, want)
 		}
 		if spin < 200 {
@@ -228,7 +243,6 @@ func runFlusher(c *caseT) (string, error) {
 	proc := &recProc{mock: mock, events: make(chan string, 64), release: make(chan struct{})}
 	fl := statsd.NewMetricFlusher(c.i, c.off, true, proc, nil)
 	exited := make(chan struct{})
-	before := time.Now()
 	go func() { fl.Run(ctx); close(exited) }()
 	defer func() {
 		cancel()
@@ -242,24 +256,16 @@ func runFlusher(c *caseT) (string, error) {
 	if err := waitQuiet(quiet); err != nil {
 		return "", err
 	}
-	after := time.Now() // the flusher has taken its first `lastFlush := time.Now()` between before and after
 	flushes, busy := 0, false
 	drain := func() {
 		for {
 			select {
 			case e := <-proc.events:
 				if flushes == 0 {
-					// delta = thisFlush - time.Now(): thisFlush lies in (start, clock]; check the bracket, print NOW
-					var cl, d string
+					// the elapsed time handed to the first flush is measured from whatever the flusher took as its start
+					// (the wall clock, the context's clock): the property constrains the later ones only
 					if k := strings.IndexByte(e, ','); k >= 0 {
-						cl, d = e[:k], e[k+1:]
-					}
-					delta := time.Duration(hx.MustInt(d))
-					lo, hi := before.Add(delta), after.Add(delta)
-					if hi.After(c.start) && !lo.After(mock.Now()) {
-						e = cl + ",NOW"
-					} else {
-						e = cl + ",WALL" + d
+						e = e[:k] + ",FIRST"
 					}
 				}
 				out = append(out, "f"+e)
